@@ -128,6 +128,8 @@ pub enum Act {
     Bad { c: u8, kind: u8 },
     /// several packets pushed before one DeviceData notification
     Batch { c: u8, kind: u8 },
+    /// two request packets pushed before one DeviceData notification (kinds: `hostile::pair`)
+    Pair { c: u8, a: u8, b: u8 },
     /// raw event for a connection id (C03)
     Raw { id: u8, kind: u8 },
     /// deliver the next late event of ended link `e`
